@@ -27,7 +27,7 @@ def check(run, prefix="O7"):
     o1 = run.ob(P + ".1", "announce <=> record: every add_to_ready(state(s), X) is followed by pushing (s, X) to the returned vector; nothing else is pushed",
                 "a recorded-but-unannounced pair is never voted on by the Votor; an announced-but-unrecorded pair disagrees with parents_ready()/wait_for_parent_ready", floor=4)
     o2 = run.ob(P + ".2", "parents become ready only at window-start slots, propagated only across skip-certified slots",
-                "a parent propagated past a non-skipped slot lets a leader build on a parent whose intermediate slot may still be notarized (fork)", floor=5)
+                "a parent propagated past a non-skipped slot lets a leader build on a parent whose intermediate slot may still be notarized (fork)", floor=7)
     for fn in ("mark_notar_fallback", "mark_skipped"):
         b = prog.body(PRT + "::" + fn)
         if b is None:
@@ -62,17 +62,29 @@ def check(run, prefix="O7"):
             if not is_result:
                 continue
             o1.check(any(b.dominates(a.bb, p.bb) for a in adds), key + "|recorded", "every announced pair was recorded with add_to_ready first", p.span)
-        # forward scans continue only over skip-certified slots
+        # forward scans continue only over skip-certified slots: the loop head can be re-entered from an iteration
+        # only through the true edge of the is_skip_certified test (removing that edge cuts every back edge)
+        es = b.edges()
+        n_scan = 0
         for (s, dterm, dty) in b.switches():
             if dty == "bool" and dterm[0] == "call" and dterm[1] == PRS + "::is_skip_certified":
-                es = b.edges()
-                false_t = [e[1] for e in es if e[0] == s and e[2] == ("sw", 0)]
-                # loop head: the Iterator::next call block(s) that dominate s
-                heads = [c.bb for c in b.calls() if c.name.endswith("Iterator>::next") or c.name.endswith("::next")]
-                heads = [h for h in heads if b.dominates(h, s)]
+                heads = [c.bb for c in b.calls() if (c.name.endswith("Iterator>::next") or c.name.endswith("::next")) and b.dominates(c.bb, s)]
                 inner = max(heads, key=lambda h: len(b.dominators()[h])) if heads else None
-                ok = bool(false_t) and inner is not None and not b.can_reach(false_t[0], inner)
-                o2.check(ok, "ParentReadyTracker::%s|scan-stops|bb%d" % (fn, 0 if not heads else heads.index(inner)), "the scan stops at the first slot that is not skip-certified", b.blocks[s]["term"].get("sp", ""))
+                true_edges = [i for i, e in enumerate(es) if e[0] == s and e[2][0] == "sw" and e[2][1] != 0]
+                false_t = [e[1] for e in es if e[0] == s and e[2] == ("sw", 0)]
+                ok = False
+                if inner is not None and true_edges:
+                    # iteration entry: successor(s) of the loop head's `Some` arm
+                    body_entry = [e[1] for e in es if e[0] == inner]
+                    r = set()
+                    for be in body_entry:
+                        r |= b.reachable(be, removed_edges=true_edges)
+                    ok = inner not in r and bool(false_t) and not b.can_reach(false_t[0], inner)
+                n_scan += 1
+                o2.check(ok, "ParentReadyTracker::%s|scan-continues-only-over-skipped|%d" % (fn, n_scan - 1),
+                         "every way back to the loop head passes the true edge of is_skip_certified (the scan stops at the first slot that is not skip-certified)", b.blocks[s]["term"].get("sp", ""))
+        want_scans = 1 if fn == "mark_notar_fallback" else 2
+        o2.check(n_scan >= want_scans, "ParentReadyTracker::%s|scans-found" % fn, "%d scan loop(s) test is_skip_certified" % want_scans, b.span, {"found": n_scan})
 
     # ------------------------------------------------------------------ O7.3 root guard
     o = run.ob(P + ".3", "the root guard dominates the first per-slot state creation of every tracker entry point; backward scan bounded by root; prune sets root and retains >= root",
